@@ -219,14 +219,14 @@ class GatedWriter(FakeWriter):
                     fut.set_exception(exc)
 
 
-class DirectTransport(StreamTransport):
-    async def _open_connection(self):
-        return await fake_open(direct=True)
-
-
 def make_transport(flavour: int):
     if flavour == 0:
-        return DirectTransport(), {"direct": True}
+        # the base class driven directly through its abstract hook, while that hook has the shape the harness knows;
+        # otherwise a second TCP transport (the hook is private; `lib.direct_stream_transport`)
+        direct = lib.direct_stream_transport(lambda: fake_open(direct=True))
+        if direct is not None:
+            return direct, {"direct": True}
+        return TCPTransport("direct.example", 5003), {"host": "direct.example", "port": 5003}
     if flavour == 1:
         return TCPTransport("gw.example", 5003 + flavour), {"host": "gw.example", "port": 5004}
     return SerialTransport("/dev/ttyFAKE", 57600), {"url": "/dev/ttyFAKE", "baudrate": 57600}
